@@ -644,3 +644,20 @@ def k11(ctx):
 def k12(ctx):
     from .c03 import p2
     return [o for o in p2(ctx) if "DeleteMethod" in o.construct]
+
+
+@rule("C09", "K13", floor=5, kind="N",
+      desc="index, HEAD and working tree agree after a request that failed: the index lock is aborted on the error path, "
+           "never closed (= renamed over the index) (same obligations as C04/B3)")
+def k13(ctx):
+    from .c04 import b3
+    return b3(ctx)
+
+
+@rule("C09", "K14", floor=4, kind="N",
+      desc="the head tree lists exactly the members: the only name the listers hide is the metadata file, by equality "
+           "(same obligations as C01/H2 and C01/H6) - a substring test (`name in '.xandikos'`) hides members named 'kos' or 'a', "
+           "which are committed and never listed")
+def k14(ctx):
+    from .c01 import h2, skip_obligations
+    return list(h2(ctx)) + list(skip_obligations(ctx))
